@@ -649,22 +649,42 @@ func (e *Env) resolvePtr(a string) (*Ptr, error) {
 // lookupLocal resolves a source-level local variable name at the current point:
 // loop-carried variables through their phi comments, others through debug references.
 func (f *Frame) lookupLocal(name string) (SV, bool) {
-	// most recently defined phi with that comment that has a value
+	// phis carrying that source name: prefer the current loop head's, then enclosing loops (innermost first),
+	// then phis outside loops that dominate the current head.
 	var best ssa.Value
+	bestRank := -1
 	for _, b := range f.fn.Blocks {
 		for _, ins := range b.Instrs {
-			if phi, ok := ins.(*ssa.Phi); ok && phi.Comment == name {
-				if _, has := f.vals[phi]; has {
-					if best == nil || f.loops[b] != nil {
-						best = phi
-					}
-				}
+			phi, ok := ins.(*ssa.Phi)
+			if !ok {
+				break
 			}
-		}
-	}
-	if f.curLoopPhi != nil {
-		if v, ok := f.curLoopPhi[name]; ok {
-			best = v
+			if phi.Comment != name {
+				continue
+			}
+			if _, has := f.vals[phi]; !has {
+				continue
+			}
+			rank := 0
+			if f.curHead != nil {
+				switch {
+				case b == f.curHead:
+					rank = 1 << 20
+				case f.loops[b] != nil && f.loops[b].blocks[f.curHead]:
+					rank = 1<<19 - len(f.loops[b].blocks) // smaller enclosing loop = more inner
+				case f.loops[b] != nil:
+					rank = -1 // phi of an unrelated loop
+				case b.Dominates(f.curHead):
+					rank = 1 + b.Index
+				default:
+					rank = 0
+				}
+			} else if f.loops[b] != nil {
+				rank = 1
+			}
+			if rank > bestRank {
+				best, bestRank = phi, rank
+			}
 		}
 	}
 	if best != nil {
